@@ -162,7 +162,14 @@ def registries_emptied(ctx, program, rid, only=None):
     inv_ok = False
     for t in fin:
         for s in t.finalbody:
-            for m in ast.walk(s):
+            nodes = list(ast.walk(s))
+            for m in list(nodes):
+                # a helper of the class called from the finally clause is part of it
+                if isinstance(m, ast.Call) and isinstance(m.func, (ast.Name, ast.Attribute)):
+                    hu = program.resolve_callable(program.unit(RUN_CORO), m.func)
+                    if hu is not None and isinstance(hu.node, (ast.FunctionDef, ast.AsyncFunctionDef)) and hu.rel == "function.py":
+                        nodes.extend(ast.walk(hu.node))
+            for m in nodes:
                 if isinstance(m, ast.Delete) and any(isinstance(x, ast.Subscript) and _registry_of(x.value) == "unique_name2task" for x in m.targets):
                     inv_ok = True
     ctx.check(inv_ok, rid, RUN_CORO, "inverse map unique_name2task released in the finally clause",
@@ -194,7 +201,7 @@ def run(ctx):
     ctx.rule("R14.5", "task-keyed registries are inserted into / removed from only at the reviewed owner sites; accumulating entries are created under a not-in guard", floor=8)
     for kind, reg, uid, node in registry_writes(program, regs):
         if kind == "insert":
-            ok = uid in INSERT_SITES.get(reg, {})
+            ok = uid in INSERT_SITES.get(reg, {}) or program.only_reached_from(uid, set(INSERT_SITES.get(reg, {})))  # (or a helper only these sites call)
             ctx.check(ok, "R14.5", uid, f"insert into {reg}",
                       msg=f"{uid} inserts into Function.{reg} (`{short(node)}`): only {sorted(INSERT_SITES.get(reg, {}))} may create entries; "
                       f"an entry created elsewhere can outlive the cleanup in run_coro", key=f"insert into {reg}: {short(node, 60)}", node=node, rel=uid.split('::')[0])
@@ -204,7 +211,7 @@ def run(ctx):
                           key=f"unguarded creation in {reg}", node=node, rel=uid.split('::')[0])
         else:
             # removing a member of the *value* (e.g. cls.task2cb[task]["cb"].pop) is not an entry removal: only direct calls counted
-            ok = uid in REMOVE_SITES.get(reg, set())
+            ok = uid in REMOVE_SITES.get(reg, set()) or program.only_reached_from(uid, set(REMOVE_SITES.get(reg, set())))  # (or a helper only these sites call)
             ctx.check(ok, "R14.5", uid, f"remove from {reg}",
                       msg=f"{uid} removes an entry of Function.{reg} (`{short(node)}`): entries are released only by run_coro when the task ends",
                       key=f"remove from {reg}: {short(node, 60)}", node=node, rel=uid.split('::')[0])
